@@ -74,7 +74,7 @@ def candidates(entry, locals_):
         for k, v in zip(keys, combo):
             cand[k] = v
         n += 1
-        if n > 60:
+        if n > 24:
             return
         if n > 1:
             yield cand
@@ -100,14 +100,14 @@ def replay_refuted(res, repo_root=None):
         req = dict(base, args=cand)
         if selfv is not None:
             req['self'] = selfv
-        obs = run_native(req, repo_root)
+        obs = run_native(req, repo_root, timeout_s=3)
         tried += 1
         last = (cand, obs)
         if obs['outcome'] == 'driver-error':
             continue
         bad = None
         if obs['outcome'] == 'timeout':
-            bad = 'does not terminate within 5 s'
+            bad = 'does not terminate within 3 s'
         elif obs['outcome'] == 'raise' and kind in ('raises', 'loop-variant', 'ensures', 'call-pre', 'loop-preserve'):
             if kind == 'raises' or res.get('escape_check'):
                 if not any(a in obs.get('exc_mro', []) for a in allowed):
